@@ -92,7 +92,8 @@ CHECKS = {
         text="TLC shows on the model that the oracle never condemns an accepted sentence of the grammar and "
              "enumerates every single-token mutant (delete, insert, replace, swap, append). Conformance: valid "
              "sentences x single-token edits, random token strings of length <= 12, the attribute table (target x "
-             "type shape x names x values x documented illegal pairs), YAML structure rows and template-context "
+             "type shape x names x values x documented illegal pairs), YAML structure rows, the table of input-file keys "
+             "(key x level x twelve kinds of YAML value: a value of the wrong type must be rejected) and template-context "
              "rows are pushed through the real front end; outcomes accept / clean reject / internal / hang are "
              "judged: never internal or hang, accepted text is bracket-balanced with no trailing or empty-slot "
              "tokens, documented sentences and legal attribute uses are accepted, illegal ones rejected with a "
@@ -230,7 +231,9 @@ CHECKS = {
              "with a declared extent, a rank-2 array with dimension(size(x,2),size(x,1)), templates mixing T with "
              "ordinary parameters) the libraries come from the TLA+ grammar: the wide member printed by LibGenPairs "
              "(every pairing of two parameter rows, every result row with every parameter row; with and without "
-             "F_CFI) and libraries sampled by TLC -simulate over LibGen (3 quick / 160 thorough).",
+             "F_CFI) and libraries sampled by TLC -simulate over LibGen (3 quick / 160 thorough), including function "
+             "templates, fortran_generic variants, typedef'd and every native scalar type. The type-bound getters and "
+             "setters of the class's member variables are validated against Members.tla (Trace_Members).",
         note="Trusted as C02, plus gfortran 12. The wide library is also written and declared as C (language: c; rows a C "
              "library can have), driven by the same Fortran source. Not covered: char** rows. With F_CFI the "
              "functions of the recorded C05 finding (string + vector/pointer-extent) are left out: Shroud stops on them.",
@@ -346,8 +349,9 @@ CHECKS = {
                   "built) and TLA+ spec EmitOrder (helper closure model-checked with TLC; build traces -- module order, "
                   "symbol tables read by nm -- and the real gather_helper_code validated by TLC); verdict on the files by "
                   "gcc/g++/gfortran and the linker",
-        text="The domain is the set of library descriptions reachable in specs/LibGen.tla (24 parameter rows x 8 result "
-             "rows of harness/rt/cases.py, overloads, default arguments, a class, a namespace, language c/c++, wrapper "
+        text="The domain is the set of library descriptions reachable in specs/LibGen.tla (40 parameter rows x 23 result "
+             "rows of harness/rt/cases.py, overloads, default arguments, function templates, fortran_generic, a class, "
+             "a derived class, a namespace, language c/c++, wrapper "
              "subsets, F_CFI, debug, doxygen, literalinclude, show_splicer_comments, line lengths 40/72/132) plus the "
              "upstream corpus. TLC samples behaviours of LibGen (seeded); the harness materialises each description with "
              "an implementation of the wrapped library, runs the real Shroud and compiles every file it wrote: headers "
